@@ -319,10 +319,18 @@ impl Cartesian<'_> {
                         let path = self.rrt.plan_rrt(&prev.joints, &next, self.robot, stop);
                         if let Ok(path) = path {
                             println!("  ... closed with RRT {} steps", path.len());
-                            for step in path {
+                            let last = path.len().saturating_sub(1);
+                            for (p, step) in path.into_iter().enumerate() {
+                                // Only the end of the relocation reproduces the pose 'to';
+                                // the points on the way there are not poses of the stroke.
+                                let flags = if p < last {
+                                    to.flags & !(PathFlags::LIN_INTERP | PathFlags::ORIGINAL)
+                                } else {
+                                    to.flags & !PathFlags::LIN_INTERP
+                                };
                                 trace.push(AnnotatedJoints {
                                     joints: step,
-                                    flags: to.flags & !PathFlags::LIN_INTERP,
+                                    flags: flags,
                                 });
                             }
                             success = true;
